@@ -16,10 +16,10 @@ open Q1t Q1t.Builders Q1t.WellFormed
 variable {W P S : Type}
 
 structure BackendSafe (B : Backend W P S) (okErr : SimErr → Prop) (allowed : String → Prop) (Inv : S → Prop)
-    (n N : Nat) : Prop where
-  applyGate : ∀ s g bits, Inv s → ValidPlace n g bits → Safe okErr allowed Inv (B.applyGate s g bits)
-  applyUnaryAll : ∀ s g, Inv s → gateOK g = true → Gate.nrBits g = 1 → Safe okErr allowed Inv (B.applyUnaryAll s g)
-  applyConditional : ∀ s control g bits, Inv s → control.length = N → ValidPlace n g bits →
+    (n N : Nat) (V : GateTerm P → List Nat → Prop) : Prop where
+  applyGate : ∀ s g bits, Inv s → V g bits → Safe okErr allowed Inv (B.applyGate s g bits)
+  applyUnaryAll : ∀ s g, Inv s → (∀ q, q < n → V g [q]) → Safe okErr allowed Inv (B.applyUnaryAll s g)
+  applyConditional : ∀ s control g bits, Inv s → control.length = N → V g bits →
     Safe okErr allowed Inv (B.applyConditional s control g bits)
   measureInto : ∀ s q cb res, Inv s → q < n → cb < 64 → res.length = N →
     Safe okErr allowed (fun x : S × List Nat => Inv x.1 ∧ x.2.length = N) (B.measureInto s q cb res)
@@ -32,23 +32,34 @@ structure BackendSafe (B : Backend W P S) (okErr : SimErr → Prop) (allowed : S
   reset : ∀ s q, Inv s → q < n → Safe okErr allowed Inv (B.reset s q)
   resetAll : ∀ s, Inv s → Inv (B.resetAll s)
 
+/-- the gate of an operation (if any) satisfies `E` -/
+def opGate (E : GateTerm P → Prop) : COp P → Prop
+  | .gate g _ | .cond _ _ g _ => E g
+  | _ => True
+
+/-- how the placements the backend handles (`V`) relate to the class `WellFormed` describes: every `ValidPlace`
+of a gate in `E`, and the basis-change gates of the executor -/
+structure Handles (n : Nat) (E : GateTerm P → Prop) (V : GateTerm P → List Nat → Prop) : Prop where
+  place : ∀ g bits, ValidPlace n g bits → E g → V g bits
+  basis : ∀ q, q < n → V .H [q] ∧ V .S [q] ∧ V .Sdg [q]
+
 section generic
 variable {B : Backend W P S} {okErr : SimErr → Prop} {allowed : String → Prop} {Inv : S → Prop} {n N nc : Nat}
+variable {E : GateTerm P → Prop} {V : GateTerm P → List Nat → Prop}
 
 /-- postcondition of an executed operation -/
 abbrev QG (Inv : S → Prop) (N : Nat) : S × List Nat → Prop := fun x => Inv x.1 ∧ x.2.length = N
 
-theorem withBasis1_safeG (hB : BackendSafe B okErr allowed Inv n N) {s : S} (hs : Inv s) {q : Nat} (hq : q < n)
+theorem withBasis1_safeG (hB : BackendSafe B okErr allowed Inv n N V) (hH' : Handles n E V) {s : S} (hs : Inv s)
+    {q : Nat} (hq : q < n)
     (b : Basis) (body : S → Prog W (S × List Nat)) (hbody : ∀ st, Inv st → Safe okErr allowed (QG Inv N) (body st)) :
     Safe okErr allowed (QG Inv N) (withBasis1 B s q b body) := by
-  have hv : ∀ g : GateTerm P, gateOK g = true → Gate.nrBits g = 1 → ValidPlace n g [q] := fun g h1 h2 =>
-    ⟨h1, by simp [h2], by simp [hasDup], by simpa using hq⟩
   have hH : ∀ st, Inv st → Safe okErr allowed Inv (B.applyGate st .H [q]) := fun st h =>
-    hB.applyGate st _ _ h (hv _ (by simp [gateOK]) (by simp [Gate.nrBits]))
+    hB.applyGate st _ _ h (hH'.basis q hq).1
   have hS : ∀ st, Inv st → Safe okErr allowed Inv (B.applyGate st .S [q]) := fun st h =>
-    hB.applyGate st _ _ h (hv _ (by simp [gateOK]) (by simp [Gate.nrBits]))
+    hB.applyGate st _ _ h (hH'.basis q hq).2.1
   have hSdg : ∀ st, Inv st → Safe okErr allowed Inv (B.applyGate st .Sdg [q]) := fun st h =>
-    hB.applyGate st _ _ h (hv _ (by simp [gateOK]) (by simp [Gate.nrBits]))
+    hB.applyGate st _ _ h (hH'.basis q hq).2.2
   cases b with
   | Z => exact hbody s hs
   | X =>
@@ -62,15 +73,15 @@ theorem withBasis1_safeG (hB : BackendSafe B okErr allowed Inv n N) {s : S} (hs 
     rintro ⟨s2, r⟩ ⟨h2, hr⟩
     exact (hH s2 h2).bind fun s3 h3 => (hS s3 h3).bind fun s4 h4 => .pure ⟨h4, hr⟩
 
-theorem withBasisAll_safeG (hB : BackendSafe B okErr allowed Inv n N) {s : S} (hs : Inv s)
+theorem withBasisAll_safeG (hB : BackendSafe B okErr allowed Inv n N V) (hH' : Handles n E V) {s : S} (hs : Inv s)
     (b : Basis) (body : S → Prog W (S × List Nat)) (hbody : ∀ st, Inv st → Safe okErr allowed (QG Inv N) (body st)) :
     Safe okErr allowed (QG Inv N) (withBasisAll B s b body) := by
   have hH : ∀ st, Inv st → Safe okErr allowed Inv (B.applyUnaryAll st .H) := fun st h =>
-    hB.applyUnaryAll st _ h (by simp [gateOK]) (by simp [Gate.nrBits])
+    hB.applyUnaryAll st _ h fun q hq => (hH'.basis q hq).1
   have hS : ∀ st, Inv st → Safe okErr allowed Inv (B.applyUnaryAll st .S) := fun st h =>
-    hB.applyUnaryAll st _ h (by simp [gateOK]) (by simp [Gate.nrBits])
+    hB.applyUnaryAll st _ h fun q hq => (hH'.basis q hq).2.1
   have hSdg : ∀ st, Inv st → Safe okErr allowed Inv (B.applyUnaryAll st .Sdg) := fun st h =>
-    hB.applyUnaryAll st _ h (by simp [gateOK]) (by simp [Gate.nrBits])
+    hB.applyUnaryAll st _ h fun q hq => (hH'.basis q hq).2.2
   cases b with
   | Z => exact hbody s hs
   | X =>
@@ -84,15 +95,15 @@ theorem withBasisAll_safeG (hB : BackendSafe B okErr allowed Inv n N) {s : S} (h
     rintro ⟨s2, r⟩ ⟨h2, hr⟩
     exact (hH s2 h2).bind fun s3 h3 => (hS s3 h3).bind fun s4 h4 => .pure ⟨h4, hr⟩
 
-theorem execOp_safe (hB : BackendSafe B okErr allowed Inv n N) {s : S} (hs : Inv s)
-    {c : List Nat} (hc : c.length = N) {op : COp P} (hop : OpGood n nc op) :
+theorem execOp_safe (hB : BackendSafe B okErr allowed Inv n N V) (hH' : Handles n E V) {s : S} (hs : Inv s)
+    {c : List Nat} (hc : c.length = N) {op : COp P} (hop : OpGood n nc op) (hE : opGate E op) :
     Safe okErr allowed (QG Inv N) (execOp B s c op) := by
   obtain ⟨hin, hdef⟩ := hop
   cases op with
   | gate g bits =>
     obtain ⟨h1, h2, h3⟩ := gateDefects_exec (by simpa [opDefects] using hdef)
     simp only [execOp]
-    exact (hB.applyGate s g bits hs ⟨h1, h2, h3, hin⟩).bind fun s' hs' => .pure ⟨hs', hc⟩
+    exact (hB.applyGate s g bits hs (hH'.place g bits ⟨h1, h2, h3, hin⟩ hE)).bind fun s' hs' => .pure ⟨hs', hc⟩
   | cond control target g bits =>
     simp only [opDefects, List.mem_append] at hdef
     obtain ⟨h1, h2, h3⟩ := gateDefects_exec (fun d hd => hdef d (Or.inl (Or.inr hd)))
@@ -103,7 +114,7 @@ theorem execOp_safe (hB : BackendSafe B okErr allowed Inv n N) {s : S} (hs : Inv
       simp [Defect.exec] at this
     obtain ⟨ws, hws, hwl⟩ := controlWords_some control hcb hlen c
     simp only [execOp, hws]
-    exact (hB.applyConditional s _ g bits hs (by simp [hwl, hc]) ⟨h1, h2, h3, hin.2⟩).bind fun s' hs' => .pure ⟨hs', hc⟩
+    exact (hB.applyConditional s _ g bits hs (by simp [hwl, hc]) (hH'.place g bits ⟨h1, h2, h3, hin.2⟩ hE)).bind fun s' hs' => .pure ⟨hs', hc⟩
   | reset q =>
     simp only [execOp]
     exact (hB.reset s q hs hin).bind fun s' hs' => .pure ⟨hs', hc⟩
@@ -116,11 +127,11 @@ theorem execOp_safe (hB : BackendSafe B okErr allowed Inv n N) {s : S} (hs : Inv
   | measure q cb b =>
     have hcb := cbitsDefects_exec (cbits := [cb]) (by simpa [opDefects] using hdef) cb (by simp)
     simp only [execOp]
-    exact withBasis1_safeG hB hs hin.1 b _ fun st hst => hB.measureInto st q cb c hst hin.1 hcb hc
+    exact withBasis1_safeG hB hH' hs hin.1 b _ fun st hst => hB.measureInto st q cb c hst hin.1 hcb hc
   | peek q cb b =>
     have hcb := cbitsDefects_exec (cbits := [cb]) (by simpa [opDefects] using hdef) cb (by simp)
     simp only [execOp]
-    exact withBasis1_safeG hB hs hin.1 b _ fun st hst =>
+    exact withBasis1_safeG hB hH' hs hin.1 b _ fun st hst =>
       (hB.peekInto st q cb c hst hin.1 hcb hc).bind fun r hr => .pure ⟨hst, hr⟩
   | measureAll cbits b =>
     simp only [opDefects, List.mem_append] at hdef
@@ -130,7 +141,7 @@ theorem execOp_safe (hB : BackendSafe B okErr allowed Inv n N) {s : S} (hs : Inv
       have := hdef .measureAllLen (Or.inl (by simp [hne]))
       simp [Defect.exec] at this
     simp only [execOp]
-    exact withBasisAll_safeG hB hs b _ fun st hst => hB.measureAllInto st cbits c hst hlen hcb hc
+    exact withBasisAll_safeG hB hH' hs b _ fun st hst => hB.measureAllInto st cbits c hst hlen hcb hc
   | peekAll cbits b =>
     simp only [opDefects, List.mem_append] at hdef
     have hcb := cbitsDefects_exec (fun d hd => hdef d (Or.inr hd))
@@ -139,30 +150,34 @@ theorem execOp_safe (hB : BackendSafe B okErr allowed Inv n N) {s : S} (hs : Inv
       have := hdef .measureAllLen (Or.inl (by simp [hne]))
       simp [Defect.exec] at this
     simp only [execOp]
-    exact withBasisAll_safeG hB hs b _ fun st hst => hB.peekAllInto st cbits c hst hlen hcb hc
+    exact withBasisAll_safeG hB hH' hs b _ fun st hst => hB.peekAllInto st cbits c hst hlen hcb hc
 
 /-- **`do_execute_with`**, any representation -/
-theorem execOps_safe (hB : BackendSafe B okErr allowed Inv n N) :
+theorem execOps_safe (hB : BackendSafe B okErr allowed Inv n N V) (hH' : Handles n E V) :
     ∀ (ops : List (COp P)) (s : S) (c : List Nat), Inv s → c.length = N →
-      (∀ op ∈ ops, OpGood n nc op) → Safe okErr allowed (QG Inv N) (execOps B s c ops) := by
+      (∀ op ∈ ops, OpGood n nc op) → (∀ op ∈ ops, opGate E op) → Safe okErr allowed (QG Inv N) (execOps B s c ops) := by
   intro ops
   induction ops with
-  | nil => intro s c hs hc _; exact .pure ⟨hs, hc⟩
+  | nil => intro s c hs hc _ _; exact .pure ⟨hs, hc⟩
   | cons op rest ih =>
-    intro s c hs hc hops
+    intro s c hs hc hops hE
     simp only [execOps]
-    refine (execOp_safe hB hs hc (hops op List.mem_cons_self)).bind ?_
+    refine (execOp_safe hB hH' hs hc (hops op List.mem_cons_self) (hE op List.mem_cons_self)).bind ?_
     rintro ⟨s', c'⟩ ⟨hs', hc'⟩
-    exact ih s' c' hs' hc' fun o ho => hops o (List.mem_cons_of_mem _ ho)
+    exact ih s' c' hs' hc' (fun o ho => hops o (List.mem_cons_of_mem _ ho)) (fun o ho => hE o (List.mem_cons_of_mem _ ho))
 
 end generic
 
 /-- the vector representation satisfies the record (given `RouteTotal` and at least one shot) -/
 theorem vecBackendSafe {α : Type} [Zero α] [One α] [Add α] [Mul α] [Neg α] [Sub α] [Amp α P] [SimAmp α] {n N : Nat}
     (ht : RouteTotal α (P := P) n) (hN : 0 < N) :
-    BackendSafe (vecBackend (α := α) (P := P)) noErr numericOnly (VInv n N) n N where
+    BackendSafe (vecBackend (α := α) (P := P)) noErr numericOnly (VInv n N) n N (ValidPlace n) where
   applyGate := fun s g bits hs hv => applyGate_safe ht hs hv
-  applyUnaryAll := fun s g hs h1 h2 => applyUnaryAll_safe ht hs h1 h2
+  applyUnaryAll := fun s g hs hv => by
+    unfold vecBackend VecState.applyUnaryAll
+    refine Safe.foldl_bind (fun st bit => VecState.applyGate st g [bit]) _ _ (.pure hs) ?_
+    intro bit hbit st hst
+    exact applyGate_safe ht hst (hv bit (by rw [hs.nrBits] at hbit; simpa using hbit))
   applyConditional := fun s control g bits hs hc hv => applyConditional_safe ht hs hc hv
   measureInto := fun s q cb res hs hq hcb hres => measureInto_safe hs hq hcb hres
   measureAllInto := fun s cbits res hs hl hcb hres => measureAllHelper_safe hs hl hcb hres true
@@ -200,57 +215,18 @@ theorem built_inRange (nq nc : Nat) (calls : List (Call P)) :
   rw [(runCalls_ops (Circ.new nq nc) calls).1] at hop
   simpa [Circ.new] using accepted_inRange (Circ.new nq nc) calls op (by simpa [Circ.new] using hop)
 
+/-- the vector representation handles every `ValidPlace` -/
+theorem vecHandles (n : Nat) : Handles (P := P) n (fun _ => True) (ValidPlace n) where
+  place := fun g bits hv _ => hv
+  basis := fun q hq => ⟨⟨by simp [gateOK], by simp [Gate.nrBits], by simp [hasDup], by simpa using hq⟩,
+    ⟨by simp [gateOK], by simp [Gate.nrBits], by simp [hasDup], by simpa using hq⟩,
+    ⟨by simp [gateOK], by simp [Gate.nrBits], by simp [hasDup], by simpa using hq⟩⟩
+
 theorem execWF_opGood {c : Circ P} {shots : Nat} (h : ExecWF c shots = true)
     (hin : ∀ op ∈ c.ops, opInRange c.nq c.nc op) : 0 < shots ∧ ∀ op ∈ c.ops, OpGood c.nq c.nc op := by
   simp only [ExecWF, Bool.and_eq_true, decide_eq_true_eq, List.all_eq_true] at h
   refine ⟨h.1.1, fun op hop => ⟨hin op hop, fun d hd => ?_⟩⟩
   have := h.2 op hop d hd
   simpa using this
-
-/-! ### what C03 owes for the stabilizer representation
-
-`BackendSafe (stabBackend half ph conjOf) (· = NotAStabilizer) ∅ (SInv TInv n N) n N` is the hypothesis of
-`exec_either_representation_partial` / `reps_same_constructor_partial`.  It is a statement about
-`StabilizerState` (lists of tableaux with ranges); the part of it that is about `StabilizerTableau` alone is
-`TabTotal` below, and the lift from `TabTotal` to `BackendSafe` is list bookkeeping of the same kind as
-`NoPanic.lean` does for the vector representation (ranges positive and summing to the shot count — `collect_total`
-applies verbatim —, one tableau per range, `tabs[icol]` in range).  That lift is NOT proved yet.
-
-`TabTotal` for `n ∈ {1, 2}`, `TInv t := ∃ v, (t, v) ∈ TableauFinite.statesOf n` and the gate set
-`Spec.StabEnum.gateOps n` follows from the kernel-checked exhaustive lemmas of C03 (`Proofs/TableauFinite.lean`):
-`gate` from `gates_exhaustive`, `measure` and `collapse` from `measure_exhaustive` (`MeasureAgrees`: `measure`
-returns, and for a random outcome both `collapse`s return a tableau of the enumeration), `reset` from
-`reset_exhaustive` (`ResetAgrees`), `init` from `start_mem`.  What is missing there for C18: (i) the gate set —
-`gateOps` lists the gates C03 enumerates, `ValidPlace` admits every library gate incl. `Swap`, `V`, `V†`, `CY`,
-the non-Clifford ones (for which `notAStabilizer` must be shown to be the ONLY failure) and `Kron`/`Composite`
-terms; (ii) all `n`: a general proof needs the invariant "`n` rows of `n` cells, `n` signs, rows independent"
-(`Tab.WF` + `Canonical`), under which `measure`'s `unwrapNoZ` site and every cell access are excluded. -/
-
-/-- the tableau-level obligations (C03) behind `BackendSafe` of the stabilizer representation -/
-structure TabTotal {P : Type} (ph : List Nat) (conjOf : GateTerm P → Tableau.Tab.Conj) (n : Nat)
-    (TInv : Tableau.Tab → Prop) : Prop where
-  init : TInv (Tableau.Tab.new n)
-  gate : ∀ (g : GateTerm P) bits t, TInv t → ValidPlace n g bits →
-    (∃ t', Tableau.Tab.applyGate ph (conjOf g) t bits = .ok t' ∧ TInv t') ∨
-      Tableau.Tab.applyGate ph (conjOf g) t bits = .err .notAStabilizer
-  measure : ∀ t q, TInv t → q < n → ∃ info, Tableau.Tab.measure t q = .ok info
-  collapse : ∀ t q i v, TInv t → Tableau.Tab.measure t q = .ok (.random i) →
-    ∃ t', Tableau.Tab.collapse ph t i q v = .ok t' ∧ TInv t'
-  reset : ∀ t q, TInv t → q < n → ∃ t', Tableau.Tab.reset ph t q = .ok t' ∧ TInv t'
-
-/-- the shape invariant of a `StabilizerState` over a tableau invariant -/
-structure SInv (TInv : Tableau.Tab → Prop) (n N : Nat) (s : StabState) : Prop where
-  nrBits : s.nrBits = n
-  nrShots : s.nrShots = N
-  sum : s.counts.sum = N
-  pos : ∀ c ∈ s.counts, 0 < c
-  len : s.tabs.length = s.counts.length
-  tabs : ∀ t ∈ s.tabs, TInv t
-
-/-- the open obligation, as a proposition: `TabTotal` lifts to `BackendSafe` of the stabilizer backend -/
-def StabLiftObligation {α P : Type} (half : α) (ph : List Nat) (conjOf : GateTerm P → Tableau.Tab.Conj) (n N : Nat)
-    (TInv : Tableau.Tab → Prop) : Prop :=
-  TabTotal ph conjOf n TInv → 0 < N →
-    BackendSafe (stabBackend half ph conjOf) (fun e => e = .notAStabilizer) (fun _ => False) (SInv TInv n N) n N
 
 end Q1t.Sim
